@@ -112,7 +112,18 @@ pub fn scenario_strategy() -> BoxedStrategy<Scenario> {
                 let k = nsplit.min(total as usize).max(1);
                 let mut left = total;
                 let mut group = vec![];
+                // an order filled in two equal lots: two confirmations identical in every field but the file they come in
+                let twin_lots = k == 2 && total % 2 == 0 && parts[0].2.rem_euclid(3) == 0;
                 for p in 0..k {
+                    if twin_lots {
+                        let (d_off, lag, dp) = parts[0];
+                        let d_off = if benefits[first_new].kind == "ESO" { 0 } else { d_off };
+                        let td = date + Duration::days(d_off);
+                        let price = (sp + dp).max(100);
+                        trades.push(Trade { sym: sym.clone(), td, sd: td + Duration::days(lag), shares: total / 2, price: format!("{}.{:02}", price / 100, price % 100), commission: "4.95".into(), fee: "0.28".into(), file: 0 });
+                        group.push(trades.len() - 1);
+                        continue;
+                    }
                     // uneven fills: any size that leaves at least one share for each later fill
                     let n = if p + 1 == k { left } else if parts[p % parts.len()].2 % 2 == 0 { (left / (k - p) as u32).max(1) } else { 1 + parts[p % parts.len()].2.unsigned_abs() as u32 % (left - (k - p - 1) as u32) };
                     left -= n;
@@ -143,8 +154,11 @@ pub fn scenario_strategy() -> BoxedStrategy<Scenario> {
                 continue;
             }
             let td = base + Duration::days(off);
-            trades.push(Trade { sym: if symb { "FOO" } else { "BAR" }.into(), td, sd: td + Duration::days(lag % 3), shares: n, price: format!("{}.{:02}", px / 100, px % 100), commission: "4.95".into(), fee: "0".into(), file: 0 });
-            pre_groups.push(vec![trades.len() - 1]);
+            // (now and then the same manual sale twice: two equal lots)
+            for _ in 0..(if px % 11 == 0 { 2 } else { 1 }) {
+                trades.push(Trade { sym: if symb { "FOO" } else { "BAR" }.into(), td, sd: td + Duration::days(lag % 3), shares: n, price: format!("{}.{:02}", px / 100, px % 100), commission: "4.95".into(), fee: "0".into(), file: 0 });
+                pre_groups.push(vec![trades.len() - 1]);
+            }
         }
         // trade confirmation files: post-2023 one trade per file; pre-2023 one file per group of same-day trades
         if post { for (i, t) in trades.iter_mut().enumerate() { t.file = i; files.push((format!("trade_conf_{i}.txt"), String::new())); } let n0 = files.len() - trades.len(); for (i, t) in trades.iter().enumerate() { files[n0 + i].1 = post2023_text(t); } }
@@ -298,6 +312,7 @@ fn check(sc: &Scenario, obs: &mut Obs) -> Verdict {
     let mut counts: std::collections::BTreeMap<(String, u32), u32> = Default::default();
     for t in &sc.trades { *counts.entry((t.sym.clone(), t.shares)).or_insert(0) += 1; }
     if counts.values().any(|c| *c >= 2) { obs.nt("equal-share-counts-among-trades"); }
+    if sc.trades.iter().enumerate().any(|(i, a)| sc.trades.iter().skip(i + 1).any(|b| a.sym == b.sym && a.td == b.td && a.sd == b.sd && a.shares == b.shares && a.price == b.price && a.commission == b.commission && a.fee == b.fee)) { obs.class("two-identical-confirmations"); }
     for b in &sc.benefits { obs.class(format!("benefit:{}", b.kind)); }
     if rows.iter().any(|r| r[cm].ends_with("(manual trade)")) { obs.class("manual-trades"); }
     if err.contains("varrying dates") { obs.class("warning:varying-dates"); }
